@@ -4,6 +4,7 @@ import Solvor.Path.Search
 import Solvor.Path.Sqrt2
 import Solvor.Path.HSearch
 import Solvor.Path.Dijkstra
+import Solvor.Path.FloydWarshall
 /-!
 Path: the property theorems of C11 (helper lemmas are in `Lemmas.lean`, `BellmanFord.lean`,
 `Search.lean`).
@@ -433,7 +434,8 @@ theorem dijkstra_certifies (n : Nat) (E : List (Edge Int)) (s : Nat) (T : List N
         IsGoalDist E s T c) ∧
     ((dijkstra n E s T maxIter maxCost).status = .INFEASIBLE →
       ∀ t ∈ T, ∀ c, Walk E s t c → match maxCost with | none => False | some m => m < c) := by
-  obtain ⟨h1, h2⟩ := dijkstra_cert (E := E) T maxIter maxCost hs hE hW
+  obtain ⟨h1, h2⟩ := hsearch_cert (E := E) (n := n) (s := s) T [] (fun g _ => g) (fun g v => by simp) maxIter maxCost
+    hs hE hW (fun e he => by simpa using hW e he) (fun v => by simp) (fun t _ => by simp)
   refine ⟨fun hst => ?_, h2⟩
   obtain ⟨p, c, hp, hc, hcert⟩ := h1 hst
   exact ⟨p, c, hp, hc, hcert, (dist_exact_cert hcert).1⟩
@@ -443,14 +445,45 @@ example : (dijkstra 4 [(0, 1, 1), (0, 2, 6), (1, 3, 100), (2, 3, 1), (3, 3, 0)] 
     (∀ e ∈ [((0 : Nat), (1 : Nat), (1 : Int)), (0, 2, 6), (1, 3, 100), (2, 3, 1), (3, 3, 0)], e.2.1 < 4 ∧ 0 ≤ e.2.2) := by
   decide
 
--- FULL STATEMENT (not proved): astar_certifies — as `dijkstra_certifies` for
---   `astar n E s T h 1 1 maxIter maxCost` under `∀ (u, v, w) ∈ E, 0 ≤ w ∧ h u ≤ w + h v`, `h t = 0` on goals
---   (consistent heuristic), with the potential `astarPot n r.g h c`.
-/-- C11 `astar_certifies_partial` ([S], ∀-input part): for **every** heuristic table (consistent or
-not), every heuristic weight `wnum / wden`, `max_iter` and `max_cost`: a path returned by the mirror of
+/-- C11 `astar_certifies` [S].  For non-negative weights, heuristic weight 1 and a heuristic table `h`
+that is non-negative, consistent (`h u ≤ w + h v` on every edge) and 0 on the goal nodes, with any
+`max_iter` and `max_cost`:
+* if the mirror of `astar` answers OPTIMAL, its path and cost together with the potential
+  `astarPot n g h cost` (`min (g v) (cost - h v)`) pass the verified checker `distCert`, so the reported
+  cost is the exact least distance from `s` to the goal set and the path is a real path of that weight;
+* if it answers INFEASIBLE, no goal node is reachable (no `max_cost`), respectively every walk from `s` to
+  a goal node weighs more than `max_cost`. -/
+theorem astar_certifies (n : Nat) (E : List (Edge Int)) (s : Nat) (T : List Nat) (h : List Int) (maxIter : Nat)
+    (maxCost : Option Int) (hs : s < n) (hE : ∀ e ∈ E, e.2.1 < n) (hW : ∀ e ∈ E, 0 ≤ e.2.2)
+    (hcons : ∀ e ∈ E, h.getD e.1 0 ≤ e.2.2 + h.getD e.2.1 0) (hh0 : ∀ v, 0 ≤ h.getD v 0)
+    (hgoal : ∀ t ∈ T, h.getD t 0 = 0) :
+    ((astar n E s T h 1 1 maxIter maxCost).status = .OPTIMAL →
+      ∃ p c, (astar n E s T h 1 1 maxIter maxCost).path = some p ∧ (astar n E s T h 1 1 maxIter maxCost).cost = some c ∧
+        distCert E s T (astarPot n (astar n E s T h 1 1 maxIter maxCost).g h c) p c = true ∧
+        IsGoalDist E s T c) ∧
+    ((astar n E s T h 1 1 maxIter maxCost).status = .INFEASIBLE →
+      ∀ t ∈ T, ∀ c, Walk E s t c → match maxCost with | none => False | some m => m < c) := by
+  obtain ⟨h1, h2⟩ := hsearch_cert (E := E) (n := n) (s := s) T h (fun g v => 1 * g + 1 * h.getD v 0)
+    (fun g v => by simp) maxIter maxCost hs hE hW hcons hh0 hgoal
+  have ha : astar n E s T h 1 1 maxIter maxCost =
+      hSearch intNum n E.length (adjOf E) (fun g v => 1 * g + 1 * h.getD v 0) s T.contains maxIter maxCost .OPTIMAL := by
+    simp [astar]
+  rw [ha]
+  refine ⟨fun hst => ?_, h2⟩
+  obtain ⟨p, c, hp, hc, hcert⟩ := h1 hst
+  exact ⟨p, c, hp, hc, hcert, (dist_exact_cert hcert).1⟩
+
+example : (astar 4 [(0, 1, 1), (0, 2, 6), (1, 3, 100), (2, 3, 1)] 0 [3] [7, 8, 1, 0] 1 1 100 none).status = .OPTIMAL ∧
+    (astar 4 [(0, 1, 1), (0, 2, 6), (1, 3, 100), (2, 3, 1)] 0 [3] [7, 8, 1, 0] 1 1 100 none).cost = some 7 ∧
+    (∀ e ∈ [((0 : Nat), (1 : Nat), (1 : Int)), (0, 2, 6), (1, 3, 100), (2, 3, 1)],
+      e.2.1 < 4 ∧ 0 ≤ e.2.2 ∧ [7, 8, 1, (0 : Int)].getD e.1 0 ≤ e.2.2 + [7, 8, 1, (0 : Int)].getD e.2.1 0) := by
+  decide
+
+/-- C11 `astar_sound_any_heuristic` (∀-input, no hypothesis on weights or heuristic): for **every** heuristic
+table (consistent or not), every heuristic weight `wnum / wden`, `max_iter` and `max_cost`: a path returned by the mirror of
 `astar` (status OPTIMAL for weight 1, FEASIBLE otherwise) is accepted by `pathOK` with the reported
 cost, and INFEASIBLE without `max_cost` means that no goal node is reachable. -/
-theorem astar_certifies_partial (n : Nat) (E : List (Edge Int)) (s : Nat) (T : List Nat) (h : List Int)
+theorem astar_sound_any_heuristic (n : Nat) (E : List (Edge Int)) (s : Nat) (T : List Nat) (h : List Int)
     (wnum wden : Int) (maxIter : Nat) (maxCost : Option Int) (hs : s < n) (hE : ∀ e ∈ E, e.2.1 < n) :
     ((astar n E s T h wnum wden maxIter maxCost).status = (if wnum = wden then Status.OPTIMAL else Status.FEASIBLE) →
       ∃ p c, (astar n E s T h wnum wden maxIter maxCost).path = some p ∧
@@ -462,5 +495,45 @@ theorem astar_certifies_partial (n : Nat) (E : List (Edge Int)) (s : Nat) (T : L
 example : (astar 4 [(0, 1, 1), (0, 2, 6), (1, 3, 100), (2, 3, 1)] 0 [3] [7, 100, 1, 0] 1 1 100 none).path = some [0, 2, 3] ∧
     (astar 4 [(0, 1, 1), (0, 2, 6), (1, 3, 100), (2, 3, 1)] 0 [3] [0, 0, 50, 0] 2 1 100 none).status = .FEASIBLE := by
   decide
+
+/-! ## T-model: Floyd-Warshall (`solvor/floyd_warshall.py`), the ∀-input half -/
+
+-- FULL STATEMENT (not proved): floyd_warshall_certifies —
+--   ∀ n E directed, (∀ e ∈ E, e.1 < n ∧ e.2.1 < n) → let E' := if directed then E else symE E
+--     ((floydWarshall n E directed).status = .UNBOUNDED ↔ ∃ x c, c < 0 ∧ Walk E' x x c) ∧
+--     (∀ m, (floydWarshall n E directed).mat = some m → ∀ i j, i < n → j < n →
+--        (∀ c, Mat.get m i j = some c → IsDist E' i j c) ∧ (Mat.get m i j = none → ¬ Reach E' i j))
+-- Proved below: the "upper bound" half (every finite entry is a real walk, UNBOUNDED exhibits a negative
+-- closed walk).  The "lower bound" half (rows are feasible potentials; a negative cycle makes a diagonal
+-- entry negative) is decided on every explored input by comparing the matrix with the Bellman-Ford
+-- distances from every source (`bellman_ford_correct`) and by `neg_cycle_cert`.
+/-- C11 `floyd_warshall_certifies_partial` ([S], ∀-input half): for every edge list (`directed` or not),
+every finite entry `dist[i][j]` of the mirror's matrix is the weight of a real walk from `i` to `j` (a reported
+distance is always attained), and an UNBOUNDED answer comes with a closed walk of negative weight (a negative
+cycle is present). -/
+theorem floyd_warshall_certifies_partial (n : Nat) (E : List (Edge Int)) (directed : Bool) :
+    ((floydWarshall n E directed).status = .UNBOUNDED →
+      ∃ x c, c < 0 ∧ Walk (if directed then E else symE E) x x c) ∧
+    (∀ m, (floydWarshall n E directed).mat = some m →
+      ∀ i j c, Mat.get m i j = some c → Walk (if directed then E else symE E) i j c) := by
+  have hr := fwReal_loop n (fwReal_init n E directed)
+  unfold floydWarshall
+  simp only []
+  split
+  · next hany =>
+    refine ⟨fun _ => ?_, fun m h => (by cases h)⟩
+    obtain ⟨i, _, hi⟩ := List.any_eq_true.mp hany
+    cases hg : Mat.get (fwLoop n (fwInit n E directed)) i i with
+    | none => simp [hg] at hi
+    | some x =>
+      simp only [hg, decide_eq_true_eq] at hi
+      exact ⟨i, x, hi, hr i i x hg⟩
+  · refine ⟨fun h => (by cases h), fun m h => ?_⟩
+    cases h
+    exact hr
+
+example : (floydWarshall 3 [(0, 1, 1), (1, 2, -3), (2, 1, 1)] true).status = .UNBOUNDED ∧
+    (floydWarshall 3 [(0, 1, 4), (1, 2, -3), (0, 2, 2)] true).mat = some [[some 0, some 4, some 1], [none, some 0, some (-3)], [none, none, some 0]] := by
+  decide +kernel
 
 end Solvor.Path
